@@ -1,6 +1,8 @@
 import Mouette.Generated.C02Bodies
 import Mouette.Lemmas.C02Prepare
 import Mouette.Lemmas.C02Steps
+import Mouette.Lemmas.C02StepsLemmas
+import Mouette.Model.IO
 /-
 Fold lemmas behind the bridges `Generated.C02B.f = Prepare.f` (Props/C02Source.lean): what the loops of the translated
 bodies compute, by induction over the iterated container. The lemmas about the Generated step functions are stated
@@ -24,6 +26,13 @@ theorem foldl_flatMap' {α β σ : Type} (f : σ → β → σ) (g : α → List
 theorem foldl_congr' {α σ : Type} (f g : σ → α → σ) (h : ∀ a x, f a x = g a x) (l : List α) (a : σ) :
     l.foldl f a = l.foldl g a := by
   induction l generalizing a with
+  | nil => rfl
+  | cons x xs ih => rw [List.foldl_cons, List.foldl_cons, h, ih]
+
+/-- a loop that never changes the first component of its state -/
+theorem foldl_fst_const {σ τ α : Type} (step : σ × τ → α → σ × τ) (g : τ → α → τ) (s : σ)
+    (h : ∀ t x, step (s, t) x = (s, g t x)) (l : List α) (t : τ) : l.foldl step (s, t) = (s, l.foldl g t) := by
+  induction l generalizing t with
   | nil => rfl
   | cons x xs ih => rw [List.foldl_cons, List.foldl_cons, h, ih]
 
@@ -214,6 +223,25 @@ theorem foldl_range_set {α : Type} (f : α → α) (d : α) (step : List α →
     have hlt' : n < (l.map f).length := by simpa using hlt
     simp only [List.map_append, List.map_cons, List.map_nil, List.append_assoc, List.cons_append, List.nil_append]
 
+theorem set_getD_self {α : Type} (l : List α) (i : Nat) (d : α) : l.set i (l.getD i d) = l := by
+  induction l generalizing i with
+  | nil => rfl
+  | cons x xs ih =>
+    cases i with
+    | zero => rfl
+    | succ i => simp only [List.set_cons_succ, List.getD_cons_succ, ih]
+
+/-- a loop `for i in range(n)` that only rewrites one list-valued field of the state, as a loop over that list -/
+theorem foldl_range_field {σ α : Type} (get : σ → List α) (put : σ → List α → σ)
+    (hput : ∀ s l l', put (put s l) l' = put s l') (hget : ∀ s l, get (put s l) = l) (hid : ∀ s, put s (get s) = s)
+    (step : σ → Nat → σ) (g : List α → Nat → List α) (hstep : ∀ s i, step s i = put s (g (get s) i)) (n : Nat) (s : σ) :
+    (List.range n).foldl step s = put s ((List.range n).foldl g (get s)) := by
+  induction n with
+  | zero => simp [hid]
+  | succ n ih =>
+    rw [List.range_succ, List.foldl_append, List.foldl_append, ih, List.foldl_cons, List.foldl_nil, List.foldl_cons,
+      List.foldl_nil, hstep, hput, hget]
+
 /-! ### corner records -/
 
 theorem owners_enum_fold (step : Raw → Nat × List Nat → Raw)
@@ -307,17 +335,243 @@ theorem cellFaces_outer (keys : List (List Nat)) (step : Raw → Nat × List Nat
         simp only [enumFrom, List.foldl_cons, hstep _ _ _ _ hg, ih l hr, List.flatten_cons, ownersFrom,
           List.append_assoc]
 
+/-! ### the rebuild of the edge container (`_prepare_edges`) -/
+
+/-- attribute names are unique (they are the keys of the dict `_attr`) -/
+def UniqueNames (as : List Attr) : Prop := (as.map (·.name)).Nodup
+
+theorem findAttr_of_mem (as : List Attr) (h : UniqueNames as) (a : Attr) (ha : a ∈ as) : findAttr as a.name = some a := by
+  induction as with
+  | nil => cases ha
+  | cons b bs ih =>
+    unfold UniqueNames at h
+    simp only [List.map_cons, List.nodup_cons] at h
+    unfold findAttr
+    simp only [List.find?_cons]
+    rcases List.mem_cons.mp ha with rfl | ha'
+    · simp
+    · have hne : (b.name == a.name) = false := by
+        simp only [beq_eq_false_iff_ne, ne_eq]
+        intro e
+        exact h.1 (e ▸ List.mem_map.mpr ⟨a, ha', rfl⟩)
+      rw [hne]
+      exact ih h.2 ha'
+
+/-- the attribute `create_attribute` makes on the EMPTY new container from an old attribute -/
+def emptyLike (a : Attr) : Attr :=
+  { name := a.name, dflt := a.dflt, st := match a.st with | .dense _ => .dense [] | .sparse _ => .sparse [] }
+
+def createStep (as : List Attr) (c : ECont) (k : String) : ECont := econtCreate c k (attrIsDense as k) (attrDflt as k)
+
+theorem createStep_mem (as : List Attr) (h : UniqueNames as) (a : Attr) (ha : a ∈ as) (l : List Attr) :
+    createStep as ([], l) a.name = ([], l ++ [emptyLike a]) := by
+  unfold createStep econtCreate attrIsDense attrDflt emptyLike
+  rw [findAttr_of_mem as h a ha]
+  cases hst : a.st <;> simp [hst]
+
+theorem create_fold (as : List Attr) (h : UniqueNames as) (suf : List Attr) (hs : ∀ a ∈ suf, a ∈ as) (l : List Attr) :
+    (suf.map (·.name)).foldl (createStep as) ([], l) = ([], l ++ suf.map emptyLike) := by
+  induction suf generalizing l with
+  | nil => simp
+  | cons a rest ih =>
+    simp only [List.map_cons, List.foldl_cons]
+    rw [createStep_mem as h a (hs a (by simp)), ih (fun x hx => hs x (by simp [hx]))]
+    simp
+
+/-- one pass `for name in new_attrs` after edge `i` was kept as the `n`-th edge -/
+def copyStep (as : List Attr) (n i : Nat) (c : ECont) (k : String) : ECont :=
+  if attrIsDense as k || attrHas as k i then econtAttrSet c k n (attrRead as k i) else c
+
+def copyOne (as : List Attr) (n i : Nat) (k : String) (b : Attr) : Attr :=
+  if attrIsDense as k || attrHas as k i then attrSetOne k n (attrRead as k i) b else b
+
+theorem copyStep_eq (as : List Attr) (n i : Nat) (c : ECont) (k : String) :
+    copyStep as n i c k = (c.1, c.2.map (copyOne as n i k)) := by
+  unfold copyStep copyOne econtAttrSet
+  split
+  · rfl
+  · simp
+
+theorem copy_fold_map (as : List Attr) (n i : Nat) (ks : List String) (c : ECont) :
+    ks.foldl (copyStep as n i) c = (c.1, c.2.map (fun b => ks.foldl (fun b k => copyOne as n i k b) b)) := by
+  induction ks generalizing c with
+  | nil => simp
+  | cons k ks ih =>
+    rw [List.foldl_cons, copyStep_eq, ih]
+    simp [List.map_map, Function.comp_def]
+
+theorem attrSetOne_name (k : String) (n : Nat) (v : Int) (b : Attr) : (attrSetOne k n v b).name = b.name := by
+  unfold attrSetOne
+  split
+  · cases b.st <;> rfl
+  · rfl
+
+theorem copyOne_name (as : List Attr) (n i : Nat) (k : String) (b : Attr) : (copyOne as n i k b).name = b.name := by
+  unfold copyOne; split
+  · exact attrSetOne_name _ _ _ _
+  · rfl
+
+theorem copyOne_other (as : List Attr) (n i : Nat) (k : String) (b : Attr) (h : (b.name == k) = false) :
+    copyOne as n i k b = b := by
+  unfold copyOne attrSetOne
+  split
+  · rw [if_neg (by simp [h])]
+  · rfl
+
+/-- over a duplicate-free list of names, an attribute is touched exactly by the pass of its own name -/
+theorem copy_pointwise (as : List Attr) (n i : Nat) (ks : List String) (hk : ks.Nodup) (b : Attr) :
+    ks.foldl (fun b k => copyOne as n i k b) b = if b.name ∈ ks then copyOne as n i b.name b else b := by
+  induction ks generalizing b with
+  | nil => simp
+  | cons k ks ih =>
+    simp only [List.nodup_cons] at hk
+    rw [List.foldl_cons, ih hk.2, copyOne_name]
+    by_cases e : b.name = k
+    · subst e
+      simp [hk.1]
+    · have hne : (b.name == k) = false := by simpa using e
+      rw [copyOne_other as n i k b hne]
+      simp [e]
+
+/-- what the pass writes into the attribute made from `a`: the value edge `i` reads, at slot `n` -/
+def copied (n i : Nat) (a : Attr) (b : Attr) : Attr :=
+  if (match a.st with | .dense _ => true | .sparse _ => false) || a.hasKey i then attrSetOne a.name n (a.read i) b else b
+
+theorem copy_names_fold (as : List Attr) (h : UniqueNames as) (n i : Nat) (g : Attr → Attr) (hg : ∀ a, (g a).name = a.name)
+    (es : List (Int × Int)) :
+    (as.map (·.name)).foldl (copyStep as n i) (es, as.map g) = (es, as.map (fun a => copied n i a (g a))) := by
+  rw [copy_fold_map]
+  simp only [List.map_map]
+  congr 1
+  apply List.map_congr_left
+  intro a ha
+  simp only [Function.comp]
+  rw [copy_pointwise as n i _ h, hg a, if_pos (List.mem_map.mpr ⟨a, ha, rfl⟩)]
+  unfold copyOne copied attrIsDense attrHas attrRead
+  rw [findAttr_of_mem as h a ha]
+  rfl
+
+theorem reindexSparse_append (d : List (Nat × Int)) (surv : List Nat) (i k0 : Nat) :
+    reindexSparse d (surv ++ [i]) k0 = reindexSparse d surv k0 ++
+      (match lookup d i with | some v => [(k0 + surv.length, v)] | none => []) := by
+  induction surv generalizing k0 with
+  | nil => simp only [List.nil_append, reindexSparse, List.length_nil, Nat.add_zero]; cases lookup d i <;> rfl
+  | cons j rest ih =>
+    simp only [List.cons_append, reindexSparse, List.length_cons, ih (k0 + 1)]
+    have e : k0 + 1 + rest.length = k0 + (rest.length + 1) := by omega
+    cases lookup d j <;> simp [e]
+
+theorem reindexSparse_keys (d : List (Nat × Int)) (surv : List Nat) (k0 : Nat) :
+    ∀ p ∈ reindexSparse d surv k0, p.1 < k0 + surv.length := by
+  induction surv generalizing k0 with
+  | nil => simp [reindexSparse]
+  | cons j rest ih =>
+    intro p hp
+    simp only [reindexSparse] at hp
+    cases hl : lookup d j with
+    | none =>
+      rw [hl] at hp
+      have := ih (k0 + 1) p hp
+      simp only [List.length_cons]; omega
+    | some v =>
+      rw [hl] at hp
+      rcases List.mem_cons.mp hp with rfl | hp'
+      · simp only [List.length_cons]; omega
+      · have := ih (k0 + 1) p hp'
+        simp only [List.length_cons]; omega
+
+/-- the step of the re-indexing: keeping edge `i` as the next edge extends every attribute by what edge `i` read -/
+theorem copied_reindex (surv : List Nat) (i : Nat) (a : Attr) :
+    copied surv.length i a (expandAttr 1 (reindexAttr surv a)) = reindexAttr (surv ++ [i]) a := by
+  obtain ⟨name, dflt, st⟩ := a
+  cases st with
+  | dense vals =>
+    simp only [copied, Bool.true_or, if_true, reindexAttr, expandAttr, attrSetOne, beq_self_eq_true, Attr.read,
+      List.map_append, List.map_cons, List.map_nil]
+    congr 2
+    rw [List.set_append_right _ _ (by simp)]
+    simp
+  | sparse d =>
+    simp only [copied, Bool.false_or, reindexAttr, expandAttr, Attr.hasKey, Attr.read, reindexSparse_append, Nat.zero_add]
+    cases hl : lookup d i with
+    | none => simp
+    | some v =>
+      simp only [Option.isSome_some, if_true, attrSetOne, beq_self_eq_true, sparseSet, Option.getD_some]
+      congr 2
+      rw [List.filter_eq_self.mpr]
+      intro p hp
+      have := reindexSparse_keys d surv 0 p hp
+      simp only [bne_iff_ne, ne_eq]; omega
+
+/-- one iteration of `for ie in self.id_edges` of the rebuild -/
+def rebuildStep (N : Nat) (as : List Attr) (E : List (Int × Int)) (x : ECont × Nat) (i : Nat) : ECont × Nat :=
+  if validE N (edgeGet E i) then
+    ((as.map (·.name)).foldl (copyStep as x.2 i) (x.1.1 ++ [keyE (edgeGet E i)], x.1.2.map (expandAttr 1)), x.2 + 1)
+  else x
+
+theorem rebuild_fold (N : Nat) (as : List Attr) (h : UniqueNames as) (E : List (Int × Int)) (m : Nat) (hm : m ≤ E.length) :
+    (List.range m).foldl (rebuildStep N as E) (([], as.map emptyLike), 0) =
+      ((((E.take m).filter (validE N)).map keyE, as.map (reindexAttr (survIdx N (E.take m) 0))),
+        (survIdx N (E.take m) 0).length) := by
+  induction m with
+  | zero =>
+    simp only [List.range_zero, List.foldl_nil, List.take_zero, List.filter_nil, List.map_nil, survIdx, List.length_nil]
+    congr 2
+    apply List.map_congr_left
+    intro a _
+    obtain ⟨name, dflt, st⟩ := a
+    cases st <;> simp [emptyLike, reindexAttr, reindexSparse]
+  | succ m ih =>
+    have hlt : m < E.length := by omega
+    rw [List.range_succ, List.foldl_append, ih (by omega), List.foldl_cons, List.foldl_nil]
+    have hget : edgeGet E m = E[m] := by
+      unfold edgeGet; rw [List.getD_eq_getElem?_getD, List.getElem?_eq_getElem hlt]; rfl
+    have htake : E.take (m + 1) = E.take m ++ [E[m]] := List.take_succ_eq_append_getElem hlt
+    have hlen : (E.take m).length = m := by simp; omega
+    have hsurv : survIdx N (E.take (m + 1)) 0 = survIdx N (E.take m) 0 ++ (if validE N E[m] then [m] else []) := by
+      rw [htake, survIdx_append]
+      simp only [survIdx, Nat.zero_add, hlen]
+      first | done | (split <;> rfl)
+    have hfilt : (E.take (m + 1)).filter (validE N) = (E.take m).filter (validE N) ++ (if validE N E[m] then [E[m]] else []) := by
+      rw [htake, List.filter_append]
+      by_cases hv : validE N E[m] = true <;> simp [hv]
+    unfold rebuildStep
+    rw [hget]
+    by_cases hv : validE N E[m] = true
+    · rw [if_pos hv]
+      simp only []
+      have := copy_names_fold as h (survIdx N (E.take m) 0).length m
+        (fun a => expandAttr 1 (reindexAttr (survIdx N (E.take m) 0) a))
+        (fun a => by rw [expandAttr_name, reindexAttr_name])
+        (List.map keyE (List.filter (validE N) (List.take m E)) ++ [keyE E[m]])
+      rw [List.map_map]
+      simp only [Function.comp_def] at this ⊢
+      rw [this, hsurv, hfilt, if_pos hv, if_pos hv]
+      simp only [List.map_append, List.map_cons, List.map_nil, List.length_append, List.length_cons, List.length_nil]
+      congr 2
+      apply List.map_congr_left
+      intro a _
+      exact copied_reindex _ m a
+    · rw [if_neg hv, hsurv, hfilt, if_neg hv, if_neg hv]
+      simp
+
+/-- non-vacuity input for the rebuild: a reversed edge, a self-loop, a reversed edge, an out-of-range edge; a dense and a
+sparse attribute -/
+def demoEdges : Raw :=
+  { verts := [[0], [0], [0]]
+    edges := [(1, 0), (2, 2), (2, 1), (0, 7)]
+    eattrs := [⟨"w", 0, .dense [10, 11, 12, 13]⟩, ⟨"s", 5, .sparse [(2, 7), (3, 9)]⟩] }
+
 /-! ### prepare() run on the translated bodies -/
 
-/-- one step of `prepare()`, executed by the TRANSLATED body of that step (`Generated.C02B`); `_prepare_edges` is the hand
-model, `_prepare_faces` / `_prepare_cells` only change the Python type of rows, `_compute_dimensionality` refreshes a cache.
+/-- one step of `prepare()`, executed by the TRANSLATED body of that step (`Generated.C02B`); `_prepare_faces` / `_prepare_cells` only change the Python type of rows, `_compute_dimensionality` refreshes a cache.
 Vertex rows are lifted to float rows for `_prepare_vertices` (its coordinates do not depend on the dtype kind). -/
 def runStepSrc : Step → Raw → Raw
   | .completeFaces, r => Generated.C02B.completeFaces r
   | .completeEdges, r => Generated.C02B.completeEdges r
   | .prepareVertices, r =>
     { r with verts := (Generated.C02B.prepareVertices ⟨r.verts.map (fun xs => ⟨'f', xs⟩)⟩).verts.map (·.xs) }
-  | .prepareEdges, r => prepareEdges r
+  | .prepareEdges, r => Generated.C02B.prepareEdges r
   | .prepareFaces, r => r
   | .genFaceCorners, r => Generated.C02B.genFaceCorners r
   | .prepareCells, r => r
@@ -334,8 +588,10 @@ def runStepsSrc (cfg : Cfg) : List (Guard × Step) → Raw → Raw
 def prepareSrc (cfg : Cfg) (p : PrepareProgram) (r : Raw) : Raw :=
   if p.guardFirst && r.prepared then r else runStepsSrc cfg p.steps r
 
-theorem runSteps_src (cfg : Cfg) (hstep : ∀ s r r', runStep s r = .ok r' → runStepSrc s r = r')
-    (steps : List (Guard × Step)) (r p : Raw) (h : runSteps cfg steps r = .ok p) : runStepsSrc cfg steps r = p := by
+theorem runSteps_src (cfg : Cfg) (Inv : Raw → Prop)
+    (hstep : ∀ s r r', Inv r → runStep s r = .ok r' → runStepSrc s r = r' ∧ Inv r')
+    (steps : List (Guard × Step)) (r p : Raw) (hr : Inv r) (h : runSteps cfg steps r = .ok p) :
+    runStepsSrc cfg steps r = p := by
   induction steps generalizing r with
   | nil => simp only [runSteps] at h; cases h; rfl
   | cons gs rest ih =>
@@ -347,9 +603,83 @@ theorem runSteps_src (cfg : Cfg) (hstep : ∀ s r r', runStep s r = .ok r' → r
       | error e => simp [hs] at h
       | ok r' =>
         simp only [hs] at h
-        rw [hstep s r r' hs]
-        exact ih r' h
+        obtain ⟨e1, e2⟩ := hstep s r r' hr hs
+        rw [e1]
+        exact ih r' e2 h
     · rw [if_neg hg] at h ⊢
-      exact ih r h
+      exact ih r hr h
+
+/-! ### attribute names stay unique through the model's steps -/
+
+theorem uniqueNames_map (as : List Attr) (f : Attr → Attr) (hf : ∀ a, (f a).name = a.name) (h : UniqueNames as) :
+    UniqueNames (as.map f) := by
+  unfold UniqueNames at h ⊢
+  rw [List.map_map]
+  have : ((fun x => x.name) ∘ f) = (fun x => x.name) := by funext a; exact hf a
+  rw [this]; exact h
+
+theorem uniqueNames_completeEdges (r : Raw) (h : UniqueNames r.eattrs) : UniqueNames (completeEdges r).eattrs := by
+  unfold completeEdges
+  split
+  · exact h
+  · simp only
+    apply uniqueNames_map _ _ (fun a => expandAttr_name _ a)
+    split
+    · exact h
+    · rename_i hh
+      unfold UniqueNames at h ⊢
+      rw [List.map_append, List.nodup_append]
+      refine ⟨h, by simp, ?_⟩
+      intro x hx y hy
+      simp only [List.map_cons, List.map_nil, List.mem_singleton] at hy
+      subst hy
+      intro e
+      subst e
+      apply hh
+      obtain ⟨a, ha, e⟩ := List.mem_map.mp hx
+      unfold hasAttr
+      exact List.any_eq_true.mpr ⟨a, ha, by simp [e, hardAttr]⟩
+
+theorem uniqueNames_prepareEdges (r : Raw) (h : UniqueNames r.eattrs) : UniqueNames (prepareEdges r).eattrs := by
+  unfold prepareEdges
+  split
+  · exact uniqueNames_map _ _ (fun a => reindexAttr_name _ a) h
+  · exact h
+
+theorem uniqueNames_step (s : Step) (r r' : Raw) (h : UniqueNames r.eattrs) (hs : runStep s r = .ok r') :
+    UniqueNames r'.eattrs := by
+  cases s <;> simp only [runStep] at hs
+  case completeFaces => cases hs; unfold completeFaces; split <;> exact h
+  case completeEdges => cases hs; exact uniqueNames_completeEdges r h
+  case prepareVertices => cases hs; exact h
+  case prepareEdges => cases hs; exact uniqueNames_prepareEdges r h
+  case prepareFaces => cases hs; exact h
+  case genFaceCorners => cases hs; unfold genFaceCorners; split <;> exact h
+  case prepareCells => cases hs; exact h
+  case genCellCorners => cases hs; unfold genCellCorners; split <;> (try split) <;> exact h
+  case genCellFaces =>
+    unfold genCellFaces at hs
+    split at hs
+    · cases hs; exact h
+    · cases hs
+  case computeDim => cases hs; exact h
+  case setPrepared => cases hs; exact h
+
+/-! ### the file route: what a reader hands over, as input of `prepare` -/
+
+/-- the `RawMeshData` a file reader returns (the record type of C04's reader models and of its TRANSLATED readers
+`Generated.C04R.importXyz`, `Generated.C04R.parseTet`) as raw input of the construction: 3 coordinates per vertex, index
+rows as read, a `hard_edges` attribute when the reader created one, nothing prepared -/
+def ofIO (m : Mouette.IO.Raw Rat) : Raw :=
+  { verts := m.verts.map (fun p => [p.1, p.2.1, p.2.2]),
+    edges := m.edges.map (fun e => ((e.1 : Int), (e.2 : Int))),
+    eattrs := (match m.hard with
+      | none => []
+      | some ks => [{ name := hardName, dflt := 0, st := .sparse (ks.map (fun k => (k, (1 : Int)))) }]),
+    faces := m.faces, cells := m.cells }
+
+theorem ofIO_uniqueNames (m : Mouette.IO.Raw Rat) : UniqueNames (ofIO m).eattrs := by
+  unfold UniqueNames ofIO
+  cases m.hard <;> simp
 
 end Mouette.C02Src
